@@ -17,7 +17,7 @@ from oracle import evolve as ev
 
 REPO = gen.REPO
 PY_SUB = ["C04", "C09", "C10", "C01", "C03", "C02"]
-OTHER_SUB = ["C07", "C08", "C17"]
+OTHER_SUB = ["C07", "C08", "C17", "C16"]
 RUNTIME_FILES = ["__init__.py", "_hooks.py", "converters.py", "validators.py", "py.typed"]
 
 
